@@ -613,7 +613,17 @@ impl<'r> PG<'r> {
                 }
             }
             Ty::Ts => {
-                let lit = G::Call("timestamp".into(), None, vec![G::Lit((*self.r.pick(&["'2023-05-28T10:20:30Z'", "'1999-12-31T23:59:59.999+02:00'", "'2024-02-29T00:00:00-08:00'", "'bad'"])).into())]);
+                let lit = G::Call("timestamp".into(), None, vec![G::Lit((*self.r.pick(&[
+                    // near-duplicates on purpose (same year / same day / same instant in another offset): lossy cache keys collide on these
+                    "'2023-05-28T10:20:30Z'",
+                    "'2023-05-28T00:00:00Z'",
+                    "'2023-05-28T12:20:30+02:00'",
+                    "'2023-01-01T00:00:00+02:00'",
+                    "'2023-12-31T23:59:59-05:00'",
+                    "'1999-12-31T23:59:59.999+02:00'",
+                    "'2024-02-29T00:00:00-08:00'",
+                    "'bad'",
+                ])).into())]);
                 if leaf || self.r.chance(1, 2) {
                     self.var_or(Ty::Ts, lit)
                 } else if self.r.chance(1, 2) {
@@ -623,7 +633,7 @@ impl<'r> PG<'r> {
                 }
             }
             Ty::Dur => {
-                let lit = G::Call("duration".into(), None, vec![G::Lit((*self.r.pick(&["'1h'", "'90m'", "'1.5s'", "'-2ms'", "'1h30m1s'", "'nope'"])).into())]);
+                let lit = G::Call("duration".into(), None, vec![G::Lit((*self.r.pick(&["'1h'", "'60m'", "'90m'", "'1h30m'", "'1.5s'", "'-2ms'", "'1h30m1s'", "'nope'"])).into())]);
                 if leaf || self.r.chance(1, 2) {
                     self.var_or(Ty::Dur, lit)
                 } else {
